@@ -704,7 +704,8 @@ def _n_body(N, body, lp, enable_loop, top=False):
         elif k == "block":
             u = N.fresh()
             _n_callable(N, "__blk%d" % u, [], n[2], n[3], lp, enable_loop)
-            N.w("__blk%d(__out, None)" % u)
+            # the block renders where it is placed; a buffered block hands its content back and it is written there
+            N.w("__out.append(str(__blk%d(__out, None)))" % u)
         else:
             raise ValueError(n)
 
